@@ -42,6 +42,12 @@ func (cx *Ctx) callChainOf(v ssa.Value) string {
 				v = x.Call.Args[0]
 				continue
 			}
+		case *ssa.Parameter:
+			// the parameter of a function with one call site stands for the argument given there
+			if args := cx.Fx.argsOf[x]; len(args) == 1 {
+				v = args[0]
+				continue
+			}
 		}
 		break
 	}
@@ -253,13 +259,33 @@ func checkC04(cx *Ctx, r *Report) {
 	bindingsAt := func(fn *ssa.Function, match func(ssa.CallInstruction) bool, field string) (map[string]bool, bool) {
 		out := map[string]bool{}
 		undisc := false
-		for _, c := range callsIn(fn) {
+		var all []ssa.CallInstruction
+		for _, g := range cx.privateHelpers(fn) {
+			all = append(all, callsIn(g)...)
+		}
+		for _, c := range all {
 			if !match(c) {
 				continue
 			}
 			pts, ok := fx.atomPathsTo(c.Block(), 4096)
 			if !ok {
 				continue
+			}
+			// the case may be decided where the piece of fn that holds the call is called
+			var outer []APath
+			if via := cx.viaSite(fn, c); via != c {
+				outer, _ = fx.atomPathsTo(via.Block(), 4096)
+			}
+			if len(outer) > 0 {
+				var comb []APath
+				for _, o := range outer {
+					for _, p := range pts {
+						q := p
+						q.Atoms = append(append([]Atom{}, o.Atoms...), p.Atoms...)
+						comb = append(comb, q)
+					}
+				}
+				pts = comb
 			}
 			for _, p := range pts {
 				found := false
@@ -333,9 +359,11 @@ func checkC04(cx *Ctx, r *Report) {
 			signCall = c
 		}
 	}
-	for _, c := range callsIn(sb) {
-		if f := calleeOf(c); f != nil && w.FuncKey(f) == "provider.BuildRedirectQuery" {
-			sendCall = c
+	for _, g := range cx.privateHelpers(sb) {
+		for _, c := range callsIn(g) {
+			if f := calleeOf(c); f != nil && w.FuncKey(f) == "provider.BuildRedirectQuery" {
+				sendCall = c
+			}
 		}
 	}
 	if signCall == nil || sendCall == nil {
